@@ -56,10 +56,12 @@ def _(self) -> Int:
 
 
 @contract("Decoder.read_non_negative_binary_integer", props=["C06", "C16", "C08", "C01"])
-def _(self, number_of_bits: Nat) -> Nat:
+def _(self, number_of_bits: Int) -> Nat:
     # checked read: with fewer bits left the library's OutOfDataError is raised and nothing is consumed
     raises_iff(OutOfDataError, number_of_bits > self.number_of_bits,
                ensures=[self.number_of_bits == old(self.number_of_bits), self.value == old(self.value)])
+    # a negative count (only reachable from a malformed length field) is a ValueError (negative shift count)
+    raises_iff(ValueError, number_of_bits < 0)
     assigns(self)
     ensures(self.number_of_bits == old(self.number_of_bits) - number_of_bits and self.value == old(self.value))
     ensures(result == (self.value // pow2(self.number_of_bits)) % pow2(number_of_bits))
@@ -178,11 +180,12 @@ def _(self, value: Nat):
 
 
 @contract("Decoder.read_bits", props=["C06", "C16", "C08"])
-def _(self, number_of_bits: Nat) -> Bytes:
+def _(self, number_of_bits: Int) -> Bytes:
     # assumed contract of hex()/unhexlify on the 0x80-prefixed number: hex80_bytes (spec/x696.py)
     raises_iff(OutOfDataError, number_of_bits > self.number_of_bits,
                ensures=[self.number_of_bits == old(self.number_of_bits), self.value == old(self.value)])
     requires(number_of_bits % 8 == 0)         # only whole octets are read this way (read_bytes)
+    raises_iff(ValueError, number_of_bits < 0)
     use(hex80_axiom((self.value // pow2(self.number_of_bits - number_of_bits)) % pow2(number_of_bits),
                     number_of_bits // 8))
     assigns(self)
@@ -192,10 +195,25 @@ def _(self, number_of_bits: Nat) -> Bytes:
 
 
 @contract("Decoder.read_bytes", props=["C06", "C16", "C08"])
-def _(self, number_of_bytes: Nat) -> Bytes:
+def _(self, number_of_bytes: Int) -> Bytes:
     raises_iff(OutOfDataError, 8 * number_of_bytes > self.number_of_bits,
                ensures=[self.number_of_bits == old(self.number_of_bits), self.value == old(self.value)])
+    raises_iff(ValueError, number_of_bytes < 0)
     assigns(self)
     ensures(self.number_of_bits == old(self.number_of_bits) - 8 * number_of_bytes and self.value == old(self.value))
     ensures(len(result) == number_of_bytes)
     ensures(be_val(list(result)) == (self.value // pow2(self.number_of_bits)) % pow2(8 * number_of_bytes))
+
+
+@contract("Encoder.number_of_bytes", props=["C06"])
+def _(self) -> Int:
+    ensures(result == (self.number_of_bits + 7) // 8)
+
+
+@contract("Encoder.__iadd__", props=["C06", "C01"])
+def _(self, other: Obj("Encoder")) -> Obj("Encoder"):
+    use(cat_bound(self.value, self.number_of_bits, other.value, other.number_of_bits))
+    assigns(self)
+    ensures(result is self)
+    ensures(self.number_of_bits == old(self.number_of_bits) + other.number_of_bits)
+    ensures(self.value == old(self.value) * pow2(other.number_of_bits) + other.value)
